@@ -28,8 +28,13 @@ def dict_attrs_of_init(m, cname):
     f = m.method(cname, '__init__')
     out = []
     for n in m._walk_own(f.node):
-        if isinstance(n, ast.Assign) and isinstance(n.value, ast.Dict) and \
-                not n.value.keys:
+        if not isinstance(n, ast.Assign):
+            continue
+        v = n.value
+        is_map = (isinstance(v, ast.Dict) and not v.keys) or (
+            isinstance(v, ast.Call) and U(v.func).split('.')[-1] in (
+                'dict', 'defaultdict', 'OrderedDict', 'WeakValueDictionary'))
+        if is_map:
             for t in n.targets:
                 if isinstance(t, ast.Attribute) and U(t.value) == 'self':
                     out.append(t.attr)
